@@ -309,6 +309,30 @@ def run_sharded(gen_mod, gen_name, gen_args, exes, seed, nshards=NCPU, wrapper=N
     return merged
 
 
+def run_rounds(rounds, gen_mod, gen_name, gen_args, exes, seed, **kw):
+    """Several sharded runs with derived seeds, merged (keeps the memory of a single round bounded)."""
+    total = None
+    for r in range(rounds):
+        m = run_sharded(gen_mod, gen_name, gen_args, exes, seed + 7919 * r, **kw)
+        if total is None:
+            total = m
+        else:
+            total["events"] += m["events"]
+            total["cases"] += m["cases"]
+            for k, v in m["classes"].items():
+                total["classes"][k] = total["classes"].get(k, 0) + v
+            total["viol"].extend(m["viol"])
+            total["incon"].extend(m["incon"])
+            total["distinct"].update(m["distinct"])
+            total["samples"].extend(m["samples"][:1])
+            total["steps_max"] = max(total["steps_max"], m["steps_max"])
+            for k, v in m["per_config"].items():
+                total["per_config"][k] = total["per_config"].get(k, 0) + v
+        if total["viol"]:
+            break
+    return total
+
+
 # ---------------------------------------------------------------------------
 # Known findings
 
